@@ -185,6 +185,7 @@ class PathState:
 
 
 NORET = object()
+_PURE_STR_METHODS = frozenset('''splitlines split rsplit replace lower upper strip lstrip rstrip startswith endswith isidentifier isdigit isalpha isalnum title capitalize zfill ljust rjust center find rfind index count partition rpartition expandtabs casefold isupper islower isspace removeprefix removesuffix isascii isdecimal isnumeric swapcase'''.split())
 
 
 def _where(func):
@@ -1401,8 +1402,16 @@ class SymEx:
                 return [(st, [x for x in args if isinstance(x, Fresh)][0])]
             if name in ('startswith', 'endswith') and args and isinstance(args[0], Const):
                 return [(st, Const(getattr(recv.v, name)(args[0].v)))]
-            if name in ('lower', 'upper', 'strip', 'lstrip', 'rstrip') and all(isinstance(x, Const) for x in args):
-                return [(st, Const(getattr(recv.v, name)(*[x.v for x in args])))]
+            if name in _PURE_STR_METHODS and all(isinstance(x, Const) for x in args) and not kw:
+                try:
+                    r = getattr(recv.v, name)(*[x.v for x in args])
+                except Exception:
+                    return [(st, CallV('raise', [Opaque('%s.%s' % (type(recv.v).__name__, name))]))]
+                if isinstance(r, list):
+                    return [(st, ListV([Const(x) for x in r]))]
+                if isinstance(r, tuple):
+                    return [(st, ListV([Const(x) for x in r], True))]
+                return [(st, Const(r))]
         return [(st, CallV(name, args, recv=recv, node=e))]
 
     def dispatch(self, e, recv, name, args, classes, st, func):
